@@ -448,6 +448,9 @@ def oracle(c, tq, res, model, result, files, kmap):
         oc, payload = res.get(qid, ('missing', ''))
         if not m or m.get('parse') != 'accept' or m.get('infrag') != '1' or oc != 'ok':
             continue
+        if m.get('specdef') != '1':
+            c.stats['oracle_spec_undefined'] += 1      # e.g. a predicate call as an operand of ==: outside seval's domain
+            continue
         k = kmap if isinstance(kmap, int) else kmap[qid]
         try:
             impl = tuples_of(payload, k)
